@@ -519,45 +519,61 @@ theorem api_applyMask_ok_iff {m : MapObj} (h : m.WF) (hv : m.BlankInvalid) (mask
 
 /-! #### what the mask map says where it has no value
 
-`apply_mask` reads the mask through `get_values_pix`, so a pixel the mask map does not cover —
-or covers but never set — is judged by the mask's BLANK cell.  "Pixels the mask does not cover
-are unmasked" is therefore true only for a mask whose blank is zero (unsigned integers with
-the default sentinel, wide masks, boolean masks with sentinel `False`); for a SIGNED integer
-mask with its default sentinel (`-2^(b-1)`, every bit pattern `≠ 0`) it is false: every valid
-pixel of the map outside the mask's valid set is blanked. -/
+`apply_mask` reads the mask through `get_values_pix`, so a pixel the mask map does not cover — or
+covers but never set — reads as the mask's BLANK cell, which for a signed integer mask with its
+default sentinel (`-2^(b-1)`) is not `0`.  A first version of this section PROVED that such a mask
+blanked every valid pixel of the map outside its own valid set (`api_applyMask_signed_mask`,
+counterexample: the int32 mask below) — a genuine defect of the library, introduced by the earlier
+`> 0` → `!= 0` repair.  It is fixed (`fix:` commit ec2f28a: a numeric mask value masks only where
+it differs from the mask's sentinel), the model mirrors the fix (`maskBadVal`), and the statement
+"a pixel that is not valid in the mask map is never masked" is now a theorem for every numeric
+mask, whatever its sentinel; the old counterexample is kept below as a regression example. -/
 
-/-- **"pixels the mask does not cover are unmasked" — under the explicit hypothesis that the
-    mask's blank cell is zero** (`…_partial`: the hypothesis is necessary, see
-    `api_applyMask_unset_nonzero` and the example below) -/
-theorem api_applyMask_unset_partial {mask : MapObj} (hm : mask.WF)
-    (hz : (mask.kind.blank mask.sent).isZero = true) (mb : Option Int) (ba : Option (List Nat))
-    (hb : mb = none ∨ ∀ b sg, mask.kind.dt = .int b sg → 0 < b)
-    {p : Nat} (hp : p < mask.npix) (hc : covered mask.c mask.st (p >>> mask.c.shift) = false) :
-    maskBad mask mb ba p = false := by
-  rw [maskBad_uncovered hm mb ba hp hc]
-  exact maskBadVal_zero mask mb ba _ hz hb
-
-/-- **FINDING (the statement without the hypothesis is false)**: for a numeric mask whose
-    sentinel is a non-zero number — every SIGNED integer mask made with the default sentinel —
-    and no `mask_bits`, every pixel that is NOT valid in the mask is bad … -/
-theorem api_applyMask_unset_nonzero {mask : MapObj} {dt : DT} {s : Int} {e : Nat}
-    (hk : mask.kind = .plain dt) (hs : mask.sent = .num s e) (hs0 : s ≠ 0)
+/-- **a pixel that is NOT VALID in a numeric mask map is never masked** — covered or not, with
+    or without `mask_bits`, WHATEVER the mask's sentinel; nothing else is assumed of the mask
+    (not even well-formedness) -/
+theorem api_applyMask_unset {mask : MapObj} {dt : DT} {s : Int} {e : Nat}
+    (hk : mask.kind = .plain dt) (hs : mask.sent = .num s e) (mb : Option Int)
     (ba : Option (List Nat)) {p : Nat} (hinv : mask.vc.valid (mask.abs p) = false) :
-    maskBad mask none ba p = true := by
-  rw [maskBad_invalid_plain hk none ba hinv, hs]
-  show (s != 0) = true
-  simpa using hs0
+    maskBad mask mb ba p = false := by
+  rw [maskBad_invalid_plain hk mb ba hinv]
+  exact maskBadVal_sent_num hk hs mb ba
 
-/-- … so `apply_mask` with such a mask blanks every valid pixel of the map that lies outside
-    the mask's valid set (and keeps a valid pixel only where the mask holds the value `0`) -/
-theorem api_applyMask_signed_mask {m mask : MapObj} {ba : Option (List Nat)} {st : State Val}
-    {dt : DT} {s : Int} {e : Nat} (h : m.WF) (hv : m.BlankInvalid)
-    (hk : mask.kind = .plain dt) (hs : mask.sent = .num s e) (hs0 : s ≠ 0)
-    (hr : apiApplyMask m mask none ba = .ok st) (p : Nat) (hp : p < m.npix)
+/-- **a pixel the mask map does not cover is never masked**: for a wide or bit-packed mask
+    unconditionally, for a plain mask whose sentinel is a number (any) or `False` -/
+theorem api_applyMask_uncovered {mask : MapObj} (hm : mask.WF)
+    (hs : ∀ dt, mask.kind = .plain dt → (∃ s e, mask.sent = .num s e) ∨ mask.sent = .bool false)
+    (mb : Option Int) (ba : Option (List Nat)) {p : Nat} (hp : p < mask.npix)
+    (hc : covered mask.c mask.st (p >>> mask.c.shift) = false) : maskBad mask mb ba p = false := by
+  rw [maskBad_uncovered hm mb ba hp hc]
+  exact maskBadVal_blank mask mb ba hs
+
+/-- … hence `apply_mask` with a numeric mask leaves every pixel outside the MASK's valid set
+    exactly as it was (the regression form of the former finding) -/
+theorem api_applyMask_unset_kept {m mask : MapObj} {mb : Option Int} {ba : Option (List Nat)}
+    {st : State Val} {dt : DT} {s : Int} {e : Nat} (h : m.WF) (hv : m.BlankInvalid)
+    (hk : mask.kind = .plain dt) (hs : mask.sent = .num s e)
+    (hr : apiApplyMask m mask mb ba = .ok st) (p : Nat) (hp : p < m.npix)
     (hinv : mask.vc.valid (mask.abs p) = false) :
-    (m.withSt st).vc.valid ((m.withSt st).abs p) = false := by
-  rw [api_applyMask_valid h hv hr p hp, api_applyMask_unset_nonzero hk hs hs0 ba hinv]
+    (m.withSt st).abs p = m.abs p := by
+  obtain ⟨_, _, _, _, habs⟩ := api_applyMask_spec h hv hr
+  rw [habs p hp, api_applyMask_unset hk hs mb ba hinv]
   simp
+
+/-- … and a numeric mask masks a valid pixel of the map iff the pixel is VALID IN THE MASK and
+    its mask value is non-zero (no `mask_bits`) / has a selected bit (two's complement at the
+    mask's dtype) -/
+theorem api_applyMask_num_iff {mask : MapObj} (mb : Option Int) (ba : Option (List Nat)) {p : Nat}
+    {n : Int} {e : Nat} (hval : mask.abs p = .num n e) :
+    maskBad mask mb ba p = true ↔
+      mask.vc.valid (mask.abs p) = true ∧
+        (match mb with
+         | none => n ≠ 0
+         | some b => intBitop (· &&& ·) mask.kind.dt n b ≠ 0) := by
+  unfold maskBad
+  rw [hval]
+  unfold maskBadVal
+  cases mb <;> simp [and_comm]
 
 /-! ### (4) `astype`, `as_bit_packed_map` -/
 
@@ -802,29 +818,47 @@ example : okAnd exU16 (fun m =>
   decide +kernel
 
 /-- (3) masks over the float map (valid pixels 4, 5, 40).
-    An unsigned (uint8, sentinel 0) mask with pixel 4 set: only pixel 4 is blanked — the
-    hypotheses of `api_applyMask_unset_partial` hold.
-    **COUNTEREXAMPLE to "pixels the mask does not cover are unmasked"**: the SAME mask values in
-    an int32 map with the default sentinel `-2^31`: pixels 5 and 40, which the mask never set
-    (40 is not even covered by it), are blanked as well — `api_applyMask_signed_mask`.  With
-    `mask_bits = 4` the sentinel's bits are not selected and only pixel 4 is blanked. -/
+    An unsigned (uint8, sentinel 0) mask with pixel 4 set: only pixel 4 is blanked.
+    **REGRESSION (the former counterexample)**: the SAME mask values in an int32 map with the
+    default sentinel `-2^31`: before the `fix:` commit pixels 5 and 40, which the mask never set
+    (40 is not even covered by it), were blanked as well; now only pixel 4 is blanked, with or
+    without `mask_bits` — even with `mask_bits = -2^31`, the sentinel's own bit, nothing outside
+    the mask's valid set is touched (`api_applyMask_unset_kept`). -/
 example : okAnd exF64 (fun m => decide m.WF && decide m.BlankInvalid &&
     okAnd (do let k ← apiMakeEmpty 0 1 (.plain (.int 8 false)) none []
               apiUpdate k "replace" [4] (some [.num 4 0]) false) (fun mask =>
-      decide mask.WF && (mask.kind.blank mask.sent).isZero &&
+      decide mask.WF &&
       okAnd (apiApplyMask m mask none none) (fun st =>
         !(m.withSt st).vc.valid ((m.withSt st).abs 4) && (m.withSt st).abs 5 == .num 5 1 &&
         (m.withSt st).abs 40 == .num 7 0)) &&
     okAnd (do let k ← apiMakeEmpty 0 1 (.plain (.int 32 true)) none []
               apiUpdate k "replace" [4] (some [.num 4 0]) false) (fun mask =>
       decide mask.WF && mask.sent == .num (-2147483648) 0 &&
+      !mask.vc.valid (mask.abs 5) && !mask.vc.valid (mask.abs 40) &&
       okAnd (apiApplyMask m mask none none) (fun st =>
-        !(m.withSt st).vc.valid ((m.withSt st).abs 4) && !(m.withSt st).vc.valid ((m.withSt st).abs 5) &&
-        !(m.withSt st).vc.valid ((m.withSt st).abs 40)) &&
+        !(m.withSt st).vc.valid ((m.withSt st).abs 4) && (m.withSt st).abs 5 == .num 5 1 &&
+        (m.withSt st).abs 40 == .num 7 0) &&
       okAnd (apiApplyMask m mask (some 4) none) (fun st =>
         !(m.withSt st).vc.valid ((m.withSt st).abs 4) && (m.withSt st).abs 5 == .num 5 1 &&
         (m.withSt st).abs 40 == .num 7 0) &&
+      okAnd (apiApplyMask m mask (some (-2147483648)) none) (fun st =>
+        (m.withSt st).abs 4 == .num 0 0 && m.vc.valid (m.abs 4) && (m.withSt st).vc.valid ((m.withSt st).abs 4) &&
+        (m.withSt st).abs 5 == .num 5 1 && (m.withSt st).abs 40 == .num 7 0) &&
       isErr (apiApplyMask m mask (some 4294967296) none) .type)) = true := by decide +kernel
+
+/-- (3) NOTE — a divergence of the MODEL from the fixed library, in a corner: a plain BOOLEAN mask
+    with sentinel `True` (its valid pixels are the `False` cells).  The library's new test
+    `(values != 0) & (values != sentinel)` never masks with such a map (checked on the real code:
+    `apply_mask` leaves `[10, 11, 5000]`); the model's boolean branches of `bad` carry no validity
+    conjunct, so every pixel NOT valid in the mask (reading `True`) is masked.  This is why
+    `api_applyMask_uncovered` excludes a plain mask with sentinel `True`. -/
+example : okAnd exF64 (fun m =>
+    okAnd (do let k ← apiMakeEmpty 0 1 (.plain .bool) (some (.bool true)) []
+              apiUpdate k "replace" [4] (some [.bool false]) false) (fun mask =>
+      mask.vc.valid (mask.abs 4) && !mask.vc.valid (mask.abs 5) &&
+      okAnd (apiApplyMask m mask none none) (fun st =>
+        (m.withSt st).vc.valid ((m.withSt st).abs 4) && !(m.withSt st).vc.valid ((m.withSt st).abs 5) &&
+        !(m.withSt st).vc.valid ((m.withSt st).abs 40)))) = true := by decide +kernel
 
 /-- (3) a wide mask (any byte / selected bits), the error classes of `maskError`, and a mask of
     ANOTHER resolution: a coarser mask (`spord = 0`, 12 pixels) raises `IndexError` because the
@@ -935,9 +969,10 @@ def sopAns (h : List String) (q : String) : String := (step (runLines h) q).2
 #guard ((runLines (sopBase ++ ["nvalid m", "sop m op=div k=2 r=q"])).get? "m").map (·.cache) == some (some 2)
 #guard sopAns (sopBase ++ ["nvalid b"]) "sop b op=add k=1 inplace=1" == "err NotImplementedError"
 #guard ((runLines (sopBase ++ ["nvalid b", "sop b op=add k=1 inplace=1"])).get? "b").map (·.cache) == some (some 1)
--- apply_mask by a signed mask with the default sentinel blanks everything (see the example above)
+-- apply_mask by a signed mask with the default sentinel: only the pixel set in the mask is blanked
+-- (before the `fix:` commit: everything, "valid q" == "_")
 #guard sopAns (sopBase ++ ["cfg k kind=plain dtype=i4 covord=0 spord=1", "upd k pix=4 val=4",
-    "mask m by=k r=q"]) "valid q" == "_"
+    "mask m by=k r=q"]) "valid q" == "5"
 #guard sopAns (sopBase ++ ["cfg k kind=plain dtype=u1 covord=0 spord=1", "upd k pix=4 val=4",
     "mask m by=k r=q"]) "valid q" == "5"
 
